@@ -57,6 +57,8 @@ func extraSpecs() []*PropertySpec {
 		{ID: "C01", Rules: []string{"COMPACT-KEEP"}, Decided: "the bundled log's LastIndex/LastTerm, which the vote restriction compares against, survive compaction"},
 		{ID: "C08", Rules: []string{"COMPACT-KEEP"}, Decided: "as C01: a vote is refused to a candidate whose log is behind also when the voter's log has just been compacted to its last entry"},
 		{ID: "C02", Rules: []string{"COMPACT-KEEP"}, Decided: "as C08"},
+		{ID: "C13", Rules: []string{"CODEC-PAIR"}, Decided: "the state record and the snapshot metadata that are written are what the decoders read back, every length the encoder writes is accepted"},
+		{ID: "C12", Rules: []string{"CODEC-PAIR"}, Decided: "a log record that was written completely decodes to the entry that was written"},
 		{ID: "C12", Rules: []string{"LOG-POSITION"}, Decided: "the log file is never in append mode and is positioned whenever a new descriptor is installed, so a record's Offset is where the record is"},
 		{ID: "C19", Rules: []string{"LOG-POSITION"}, Decided: "as C12: offsets read back from storage equal the positions written"},
 		{ID: "C06", Rules: []string{"LOG-POSITION"}, Decided: "Truncate cuts the persistent log where the in-memory log says"},
